@@ -43,6 +43,8 @@ type Forced struct {
 	NotBack   int      `json:"calls_not_returned"`
 	Admitted  []int    `json:"admitted_at_the_instant"`
 	Summary   string   `json:"summary"`
+	NSetup    int      `json:"n_setup"`
+	K         int      `json:"k_concurrent"`
 	Valid     bool     `json:"valid"`
 	Anomalies []string `json:"anomalies"`
 }
@@ -53,6 +55,9 @@ type fres struct {
 }
 
 func runForced(name string) *Forced {
+	if name == "same-entry-contention" {
+		return runContention()
+	}
 	f := &Forced{Name: name}
 	var rl ratelimiter.Ratelimiter
 	rl.Init()
@@ -180,6 +185,97 @@ back:
 	return f
 }
 
+// runContention: k callers for ONE address with an existing, full bucket at one
+// instant.  The first caller is held inside its clock read, which Allow
+// performs with the entry's mutex held; the others arrive meanwhile, reach the
+// same entry and must wait for it.  Whatever the order, the bucket decides:
+// the number admitted among the k must be the token bucket's (Coq: the mirror
+// model run on the serialised calls), and the follow-up calls likewise.
+func runContention() *Forced {
+	f := &Forced{Name: "same-entry-contention", Clause: 15, Addrs: []string{"2001:db8:c::15"}, K: 3}
+	var rl ratelimiter.Ratelimiter
+	rl.Init()
+	defer rl.Close()
+	var cur atomic.Int64
+	var arm atomic.Bool
+	reached := make(chan struct{}, 1)
+	release := make(chan struct{})
+	t0 := int64(1700000000000000000)
+	cur.Store(t0)
+	rl.VerifSetClock(func() time.Time {
+		if arm.CompareAndSwap(true, false) {
+			reached <- struct{}{}
+			<-release
+		}
+		return time.Unix(0, cur.Load())
+	})
+	ip := netip.MustParseAddr(f.Addrs[0])
+	f.Events = append(f.Events, FEv{A: 0, T: t0, D: rl.Allow(ip)})
+	f.NSetup = 1
+	t1 := t0 + 500000000 // half a second later: the bucket is full again, the entry is not idle
+	cur.Store(t1)
+	results := make(chan bool, 8)
+	arm.Store(true)
+	go func() { results <- rl.Allow(ip) }()
+	select {
+	case <-reached:
+		f.HeldPass = true
+	case <-time.After(2 * time.Second):
+		f.Anomalies = append(f.Anomalies, "the first caller never reached its clock read")
+		close(release)
+		return f
+	}
+	for i := 1; i < f.K; i++ {
+		go func() { results <- rl.Allow(ip) }()
+	}
+	got := 0
+	hold := time.After(60 * time.Millisecond)
+held:
+	for got < f.K {
+		select {
+		case d := <-results:
+			f.Events = append(f.Events, FEv{A: 0, T: t1, D: d})
+			got++
+			f.InPass++
+		case <-hold:
+			break held
+		}
+	}
+	close(release)
+	watchdog := time.After(3 * time.Second)
+	for got < f.K {
+		select {
+		case d := <-results:
+			f.Events = append(f.Events, FEv{A: 0, T: t1, D: d})
+			got++
+		case <-watchdog:
+			f.NotBack = f.K - got
+			f.Anomalies = append(f.Anomalies, "calls did not return")
+			got = f.K
+		}
+	}
+	if f.NotBack == 0 {
+		for i := 0; i < 3; i++ {
+			f.Events = append(f.Events, FEv{A: 0, T: t1, D: rl.Allow(ip)})
+		}
+	}
+	adm := 0
+	for _, e := range f.Events[f.NSetup:] {
+		if e.D {
+			adm++
+		}
+	}
+	f.Admitted = []int{adm}
+	f.Valid = f.HeldPass && f.NotBack == 0
+	var ds []string
+	for _, e := range f.Events[f.NSetup:] {
+		ds = append(ds, fmt.Sprint(e.D))
+	}
+	f.Summary = fmt.Sprintf("same-entry-contention: first of %d callers for %s held inside its clock read (entry mutex held), full bucket; %d calls returned while it was held; decisions in order of return, then 3 follow-ups: [%s]",
+		f.K, f.Addrs[0], f.InPass, strings.Join(ds, " "))
+	return f
+}
+
 func writeForced(path string, fs []*Forced) error {
 	var b strings.Builder
 	b.WriteString(header)
@@ -197,7 +293,11 @@ func writeForced(path string, fs []*Forced) error {
 			}
 			evs = append(evs, fmt.Sprintf("%d;%d;%d;%d", e.A, hi, lo, x))
 		}
-		fmt.Fprintf(&b, "  sched_check %d %d %s [%s]%%uint63", i, f.Clause, addrList(f.Addrs), strings.Join(evs, ";"))
+		if f.Clause == 15 {
+			fmt.Fprintf(&b, "  contention_check %d %s [%s]%%uint63 %d %d", i, addrList(f.Addrs), strings.Join(evs, ";"), f.NSetup, f.K)
+		} else {
+			fmt.Fprintf(&b, "  sched_check %d %d %s [%s]%%uint63", i, f.Clause, addrList(f.Addrs), strings.Join(evs, ";"))
+		}
 	}
 	b.WriteString(").\nPrint fbad.\n")
 	return osWriteFile(path, b.String())
